@@ -27,7 +27,8 @@ ORDINARY = ["meeting", "lunch", "call", "Bob", "also", "domino", "satisfaction",
 EXPRS = ["tomorrow", "friday", "8pm", "20:15", "5.10.2021", "next friday", "tomorrow 8pm", "friday 9:00 - 17:00", "May 5th",
          "heute abend", "morgen früh", "in 3 days", "3 days", "noon", "12.12.2021 14:30", "on monday", "am 5.", "übermorgen",
          "8 Uhr", "quarter past eight", "monday morning", "31.12.", "two weeks", "EOM", "9-5"]
-HASHTAGS = ["#work", "#a", "#_x", "#Tag2", "#to-do", "#urgent_1", "#B", "#work", "#home-office", "#x9"]
+HASHTAGS = ["#work", "#a", "#_x", "#Tag2", "#to-do", "#urgent_1", "#B", "#work", "#home-office", "#x9", "#workout", "#ab", "#Tag",
+            "#to-do-list", "#x", "#a-b", "#work_"]
 LABEL_RE = re.compile(r"#[A-Za-z0-9_-]+")
 
 
@@ -168,6 +169,19 @@ def _shard(arg):
         parts = list(parts)
         if only_inert:
             parts = [p for p in parts if p[0] != "word"]
+        # derived parts: a hashtag spelled like an inert word of the same text; an inert word that is a
+        # proper substring of a word of the expression ('row' in 'tomorrow', 'arch' in 'march')
+        inert_here = [t for k, t in parts if k == "inert"]
+        if inert_here and pos % 3 == 0:
+            parts.insert(pos % (len(parts) + 1), ("tag", "#" + inert_here[pos % len(inert_here)]))
+        if ex is not None and pos % 2 == 0:
+            ws = [w for w in re.split(r"[^A-Za-zäöüß]+", ex) if len(w) >= 5]
+            if ws:
+                w = ws[pos % len(ws)]
+                a = 1 + pos % (len(w) - 3)
+                sub = w[a:a + 3 + pos % 2].lower()
+                if len(sub) >= 3 and sub != w.lower():
+                    parts.insert((pos // 2) % (len(parts) + 1), ("inert", sub))
         if ex is not None:
             parts.insert(pos % (len(parts) + 1), ("expr", ex))
         if not parts:
@@ -178,7 +192,7 @@ def _shard(arg):
         bad = False
         for k, w in parts:
             if k == "inert":
-                for mm in re.finditer(re.escape(w), t):
+                for mm in re.finditer(r"(?<![^\s\-])" + re.escape(w) + r"(?![^\s\-])", t):
                     if any(a < mm.end() and mm.start() < b for a, b in spans):
                         bad = True
         if bad:
